@@ -63,3 +63,7 @@ chk("C08", "E1", "exploration",
     "deterministic simulation: revoker task racing the real accept path (window between AccessControl admission and registry insertion widened by would-block I/O, fragmentation and a seeded schedule point before register)",
     "Seeded exploration of a revocation (Clients::disconnect by connection id or endpoint id) issued k yields after on_connect returned Allow, or after accept() returned; oracle: within 2 virtual s the revoked connection has been reported disconnected and its client stream has ended.",
     "Two known findings (revocation between admission and registration, by connection id and by endpoint id) are listed in known-findings.txt and reported as KNOWN-FINDING; any other class is a VIOLATION.")
+chk("C15", "E1", "exploration",
+    "deterministic simulation: real dial_happy_eyeballs over a scripted resolver and a scripted TCP connector on a virtual clock, oracle over the attempt log",
+    "Seeded exploration of answer orders/timings of the two lookups and of per-address connect outcomes (succeed, fail fast, fail slow, hang) around the 50 ms resolution delay, 250 ms attempt delay, 1.5 s dial timeout and 3 s DNS timeout; oracle: returned stream is the first successful attempt, Err only after resolution finished and every resolved address failed, first attempt prefers the preferred family within the resolution delay, later attempts alternate families while both have untried addresses.",
+    "TcpStream::connect is replaced by a scripted connector (cfg seam); a loopback socket serves as identity token for a successful attempt.")
